@@ -275,11 +275,42 @@ CLAIMED = {
              "C07_example_sequence, C07_example_alias on the depth-3 universe extended with alias.example.com. CNAME "
              "www.sub.example.com. and ext.com. CNAME alias.example.com. (ext.com. A: six exchanges, three records in order; asked "
              "again: from the cache). "
-             "STREAM-ONLY (not proved): resolution through nameservers without glue (nested resolution of the host: the slow "
-             "candidate pass), in the v6 / prefer modes, with servers authoritative for several zones of one delegation chain (a hop "
-             "is skipped), with faults, questions for NS / CNAME / ANY and questions about a nameserver host from a warm cache, i.e. "
-             "that the result EQUALS auth_answer on every consistent "
-             "universe (C07_correct_partial is stated in a comment of Properties/C07.v with what is missing). That clause is covered "
+             "ALL FOUR PROTOCOL MODES PROVED (C07_correct_modes, C07_correct_chain_modes, C07_correct_modes_real_cache; "
+             "Resolver/RecursiveModes.v): the warm / chain theorem for every mode (only-v4, prefer-v4, prefer-v6, only-v6), root hints "
+             "with A and AAAA records (hint_okm), A and AAAA glue: every nameserver host of a cut has glue of a family the mode can use "
+             "(mode_usable: a type of rtypes_of_mode), and EVERY address record of either family the universe or the hints hold for a "
+             "host of a zone is the address of a server of that zone (the first type of the mode for which the fast pass finds a hint "
+             "or a cached RRset wins; a host owns no alias); cache consistency for the mode (consistentm; for only-v4 it is "
+             "cache_consistent: C07_consistentm_only_v4); logs hold v4 and v6 addresses (query_toi). C07_example_modes: the depth-3 "
+             "universe with a v6-only nameserver for com. and dual-stack servers elsewhere, in every mode other than only-v4; by "
+             "vm_compute prefer-v4 asks 10.0.0.1, fd00::2, 10.0.0.3, 10.0.0.4, prefer-v6 and only-v6 ask fd00::1..4. "
+             "GLUELESS NAMESERVERS PROVED (C07_correct_glueless, C07_correct_glueless_real_cache; Resolver/RecursiveGlueless.v): cuts "
+             "whose nameserver hosts have no usable glue -- the fast pass skips every candidate (next_candidate_hostnames), the slow "
+             "pass resolves the first by a nested resolve_recursive_notimeout on (h, A/AAAA by the mode) with the question on the "
+             "stack, which is the same theorem for h's own delegation chain (from the hints or the cache warmed so far; its cuts may "
+             "again be glueless); the address found serves the child and the query proceeds; the cache stays consistent. Hypothesis: a "
+             "PLAN of the glueless hosts (planned, plan h = h's chain and owning zone, hrank) with plan_ok: walk hypotheses for (h, t) "
+             "for each type t of the mode, an address record of a usable family in the owning zone, no alias at h, and a RANK: every "
+             "nameserver host of every zone on h's chain ranks strictly below h (no name is needed while its resolution is under way: "
+             "DuplicateQuestion), ranks below 30 (RECURSION_LIMIT 32). Conclusion for all sufficient fuel (C07_fuel_monotone: more fuel "
+             "never changes a finished computation of the model): the authoritative answer, a consistent cache, and the log = the "
+             "exchanges about q, one per zone of a subsequence of the chain ending at the owning zone, interleaved with the nested "
+             "resolutions' exchanges about nameserver host names (glog). C07_example_glueless: hosted.com. delegated from com. to "
+             "ns.hoster.net. without glue, hoster.net. reached by its own glue-complete chain . -> net. -> hoster.net.; by vm_compute six "
+             "exchanges (2 + 3 nested + 1). "
+             "SERVERS HOLDING SEVERAL ZONES OF ONE CHAIN PROVED (C07_correct_multizone, C07_correct_multizone_real_cache, "
+             "C07_correct_glueless_multizone; Resolver/RecursiveMultiZone.v, flag multi of the two inductions): the address clause "
+             "weakened to \"a server whose closest zone for the name is the zone or a zone of the chain below it\" (lands); hops are "
+             "skipped, the answer is unchanged, the log is one exchange per zone of a subsequence of the chain ending at the owning "
+             "zone (C07_multizone_log_shorter), skipped zones' NS sets are not cached; the weakened hypotheses follow from the strict "
+             "ones (C07_multizone_weakens). C07_example_multizone: the server of com. also holds example.com.: three exchanges "
+             "instead of four. "
+             "STREAM-ONLY (not proved): alias chains and question sequences in the v6 modes / with glueless cuts / multi-zone servers "
+             "(C07_correct_alias and C07_sequence are only-v4, glue-complete); a glueless host that also has glue in a referral on its "
+             "own chain (glue shortcut F11 on a host question, e.g. ns.hoster.net. serving hoster.net. itself); glueless hosts without "
+             "any usable address (candidate dropped, next one tried); faults; questions for NS / CNAME / ANY and questions about a "
+             "nameserver host from a warm cache; i.e. that the result EQUALS auth_answer on every consistent universe "
+             "(C07_correct_partial is stated in a comment at the end of Properties/C07.v with what is missing). That clause is covered "
              "by the differential stream and the oracle: generated universes (depth 1..5, 1..3 nameservers per zone, "
              "in/out-of-bailiwick and sibling nameserver names, glue present/absent, v4/v6/dual addresses, cross-zone CNAMEs, "
              "missing names/types, question sequences sharing a cache) are served to the real resolver through the in-memory "
@@ -300,9 +331,13 @@ CLAIMED = {
              "other than NS / CNAME; for a plain name: data only in its zone, no glue for it, positive TTLs; for an alias name: the "
              "CNAME is the only record of the universe it owns; the chain's names pairwise distinct and fewer than 31 links; every "
              "server that has a zone enclosing a chain name with no cut of that zone on the way has the zone owning the name. "
-             "Missing for the whole statement: (1) nameserver hosts without glue, "
-             "resolved by a nested recursive resolution (the slow candidate pass); servers authoritative for several "
-             "zones of one delegation chain (a hop is skipped); the v6 modes; faults; (2) a well-formedness predicate on universes "
+             "For the four modes, glueless cuts and multi-zone servers (C07_correct_modes / _glueless / _multizone) the hypotheses "
+             "are warm_questionm / plan_ok of Resolver/RecursiveModes.v, RecursiveGlueless.v: as warm_question with glue of a family "
+             "the mode can use or a planned host at each cut, every A/AAAA record of a host leading to a server of its zone (or, with "
+             "multi, a zone below it in the chain), no alias at a host, root hint nameservers listed by the universe's root zone; the "
+             "plan's rank function on nameserver host names (well-foundedness of the needs-the-address-of relation, ranks < 30). "
+             "Missing for the whole statement: (1) aliases and sequences beyond only-v4 glue-complete chains; the glue shortcut F11 "
+             "on a host question; glueless hosts without usable addresses; faults; (2) a well-formedness predicate on universes "
              "implying [serve_fits] (replies well formed and at "
              "most 512 octets), under which C07_universe_oracle_delivers discharges the hop theorems' hypothesis [delivers], and "
              "from which the per-question hypotheses follow (they are decidable but stated question by question); "
